@@ -104,6 +104,13 @@ def run(ctx):
                     'guarded by match on %s excluding 0 and 1: %s' % (facts.show(arm['a'])[:40] if arm else '?', arm is not None), breaks='empty or degenerate chance nodes reach the solver')
     # existing chance infoset: index accepted only on the equal edge
     oks = [(bi, st, e) for bi, st, e in q.agg_sites(f, 'result::Result', 'Ok')]
+    # `Ok(())` of a validation step (`check_a(..)?; check_b(..)?;` spliced in) that is followed by further steps is not an
+    # acceptance: of the unit-valued sites only those not dominated-into by a later one count (guards a strict subset)
+    def _sw(bi_):
+        return {(c['switch'], str(c.get('truth')), str(c.get('variants'))) for c in f.conds(bi_)}
+    unit_sites = [(bi, _sw(bi)) for bi, st, e in oks if not e[2] or strip_refs(e[2][0]) == ('agg', 'tuple', ()) or (strip_refs(e[2][0])[0] == 'const' and strip_refs(e[2][0])[2] == '()')]
+    inter = {bi for bi, sw in unit_sites if any(sw < sw2 for bj, sw2 in unit_sites if bj != bi)}
+    oks = [x for x in oks if x[0] not in inter]
     found = False
     for bi, st, e in oks:
         cs = f.conds(bi)
@@ -113,6 +120,15 @@ def run(ctx):
                 return weight_vec is not None and any(norm(x) == weight_vec for side in (c['a'], c['b']) for x in facts.walk(side))
             ne = [c for c in cs if c['kind'] in ('Ne', 'Eq') and c.get('b') is not None and ('probs' in facts.show(c['a']) + facts.show(c['b']) or mentions_weights(c))]
             if not ne:
+                # an element-wise comparison `stored.iter().zip(new).all(..)` sees only the common prefix: it needs the
+                # equal-length test next to it
+                zips = [c for c in cs if c['kind'] == 'Is:all' and c.get('truth') is True and q.find_sub(c['a'], lambda s_: q.is_call(s_, 'zip')) is not None
+                        and 'probs' in facts.show(c['a'])]
+                if zips:
+                    same_len = any(c['kind'] in ('Eq', 'Ne') and ((c['kind'] == 'Eq') == bool(c.get('truth'))) and c.get('b') is not None and is_len(c['a']) and is_len(c['b']) for c in cs)
+                    ctx.verdict(same_len, rule, '%s:existing-same-weights:%s' % (rule, top), 'an existing chance infoset is reused only when the stored and the new weight vectors are equal as whole vectors (same length, same entries)', f.where(bi),
+                                'element-wise comparison over zip(..); equal-length test on the path: %s' % same_len, breaks='nodes of one chance infoset with different numbers of outcomes are accepted (the surplus outcomes are silently ignored by evaluation)')
+                    continue
                 # no comparison that involves the weight vector is visible on this path (e.g. behind a helper of a reshaped type)
                 ctx.anchor_lost(rule, 'init_recurse: comparison of stored and new chance weights on the occupied path')
                 continue
